@@ -60,3 +60,26 @@ class Clock:
         elif spelling == 2:    # no trailing Z (with fraction, which the fallback regex admits)
             s = s[:-1] + ".5"
         return s
+
+
+def concrete(x):
+    """Force a symbolic index/flag to a concrete value on this path (CrossHair forks on it and
+    explores the other values on other paths).  Identity outside CrossHair."""
+    try:
+        from crosshair import realize
+        return realize(x)
+    except Exception:
+        return x
+
+
+def untraced():
+    """Context manager: run oracle-side standard-library readers on concrete data without
+    CrossHair's tracing overhead (the code under test is never inside it)."""
+    try:
+        from crosshair.tracers import NoTracing, is_tracing
+        if is_tracing():
+            return NoTracing()
+    except Exception:
+        pass
+    import contextlib
+    return contextlib.nullcontext()
